@@ -431,6 +431,24 @@ func c18ReadWrite(vm *VM, e [3]*c18Entry) {
 			verify(err == nil && decide(vIdenticalV(t, c18Foo.Apply(a, c18Foo.Apply(b, c)))), "reader does not read 'a foo b foo c' as a foo (b foo c) for xfy")
 		}
 	}
+	// a postfix operator's specifier decides whether it can be applied twice: a foo foo
+	if e[2] != nil && e[0] == nil && e[1] == nil {
+		t, err = parse("a foo foo.")
+		if decide(e[2].spec == NewAtom("xf")) {
+			verify(err != nil, "reader accepts 'a foo foo' although foo is xf")
+		} else {
+			verify(err == nil && decide(vIdenticalV(t, c18Foo.Apply(c18Foo.Apply(a)))), "reader does not read 'a foo foo' as foo(foo(a)) for yf")
+		}
+		// and it is an operand of priority P for what follows: a foo = b needs P <= 699
+		t, err = parse("a foo = b.")
+		if pi, ok := Term(e[2].prio).(Integer); ok {
+			if decide(pi <= 699) {
+				verify(err == nil && decide(vIdenticalV(t, xEqual.Apply(c18Foo.Apply(a), b))), "reader does not read 'a foo = b' as (a foo) = b")
+			} else {
+				verify(err != nil, "reader accepts 'a foo = b' although the postfix term's priority exceeds 699")
+			}
+		}
+	}
 	// writer: foo(a, b) is written in operator notation iff foo is infix
 	var buf bytes.Buffer
 	s := NewOutputTextStream(&buf)
